@@ -224,22 +224,41 @@ def rule_ids(repo, rule):
 def rule_messages(repo, rule):
     m = repo.module(ZB)
     pr = repo.fn(ZB, "prove")
-    files = {}
-    cur = None
     seq = {}
-    for s in pr.node.body:
-        if isinstance(s, ast.Assign) and isinstance(s.value, ast.Call) and norm(s.value.func) == "open" and s.value.args \
-                and isinstance(s.value.args[0], ast.Constant):
-            cur = (norm(s.targets[0]), s.value.args[0].value)
-            seq[cur[1]] = []
-        elif isinstance(s, ast.Expr) and isinstance(s.value, ast.Call):
-            f = norm(s.value.func)
-            if cur and f in ("write_circuit", "write_witness", "write_constraints") and s.value.args and norm(s.value.args[0]) == cur[0]:
-                seq[cur[1]].append(f)
-            elif cur and f == "%s.close" % cur[0]:
-                cur = None
-        elif not isinstance(s, (ast.Expr,)):
-            rule.undecided(pr.loc(s), pr.fq, norm(s)[:80], "statement in prove() not interpretable")
+    conditional = []
+
+    def collect(stmts, cur, conds):
+        """cur: (file variable, file name) of the file being written"""
+        for s in stmts:
+            if isinstance(s, ast.Assign) and isinstance(s.value, ast.Call) and norm(s.value.func) == "open" and s.value.args \
+                    and isinstance(s.value.args[0], ast.Constant):
+                cur = (norm(s.targets[0]), s.value.args[0].value)
+                seq.setdefault(cur[1], [])
+            elif isinstance(s, ast.With) and len(s.items) == 1 and isinstance(s.items[0].context_expr, ast.Call) \
+                    and norm(s.items[0].context_expr.func) == "open" and s.items[0].context_expr.args \
+                    and isinstance(s.items[0].context_expr.args[0], ast.Constant) and s.items[0].optional_vars is not None:
+                inner = (norm(s.items[0].optional_vars), s.items[0].context_expr.args[0].value)
+                seq.setdefault(inner[1], [])
+                collect(s.body, inner, conds)
+            elif isinstance(s, ast.Expr) and isinstance(s.value, ast.Call):
+                f = norm(s.value.func)
+                if cur and f in ("write_circuit", "write_witness", "write_constraints") and s.value.args and norm(s.value.args[0]) == cur[0]:
+                    seq[cur[1]].append(f)
+                    if conds:
+                        conditional.append((s, cur[1], f, " and ".join(conds)))
+                elif cur and f == "%s.close" % cur[0]:
+                    cur = None
+            elif isinstance(s, ast.If):
+                collect(s.body, cur, conds + [norm(s.test)])
+                collect(s.orelse, cur, conds + ["not (%s)" % norm(s.test)])
+            elif isinstance(s, (ast.Try, ast.For, ast.While)):
+                rule.undecided(pr.loc(s), pr.fq, norm(s)[:80], "statement in prove() not interpretable")
+        return cur
+    collect(pr.node.body, None, [])
+    for s_, fname, f, cond in conditional:
+        rule.violation(pr.loc(s_), pr.fq, "%s <- %s only if %s" % (fname, f, cond), "a message of %s is written only under a condition: "
+                       "when it does not hold the file lacks that message (e.g. no witness message for a program without private "
+                       "values)" % fname, "msg/conditional/%s" % f)
     if "circuit.zkif" not in seq or "computation.zkif" not in seq:
         raise AnalysisError("prove() does not write circuit.zkif and computation.zkif (%s)" % sorted(seq))
     c = seq["circuit.zkif"]
